@@ -66,13 +66,16 @@ _OUTCOME = {'take_svc_exception': 'svc', 'take_smc_exception': 'smc', 'take_data
 def new_arm(cfg_path, fetch=True):
     """A fresh processor instance from /repo's working tree, with exception-entry calls observed."""
     from armulator.armv6.arm_v6 import ArmV6
-    if fetch:
-        arm = ArmV6(cfg_path)
-    else:
-        class ArmV6WithoutFetch(ArmV6):
-            def fetch_instruction(self):
+
+    class ArmUnderTest(ArmV6):
+        """action Exec = what the repository's own test fixture does: the word is preset, not fetched"""
+        _stub_fetch = False
+
+        def fetch_instruction(self):
+            if self._stub_fetch:
                 return self.opcode
-        arm = ArmV6WithoutFetch(cfg_path)
+            return super().fetch_instruction()
+    arm = ArmUnderTest(cfg_path)
     arm._taken = []
     regs = arm.registers
     for meth, name in _OUTCOME.items():
@@ -231,6 +234,7 @@ def run_action(arm, act):
     try:
         n = act['n']
         if n in ('Step', 'Exec'):
+            arm._stub_fetch = (n == 'Exec')
             if n == 'Exec':
                 arm.opcode = unlimbs(act['w'])
                 arm.opcode_len = act['len']
@@ -263,6 +267,9 @@ def run_action(arm, act):
         out = 'hosterror:RecursionError'
     except Exception as ex:                                   # noqa: any host-level error is an outcome to judge
         out = 'hosterror:' + type(ex).__name__
+        import traceback
+        tb = traceback.extract_tb(ex.__traceback__)
+        arm._last_tb = '%s:%d %s: %s' % (os.path.basename(tb[-1].filename), tb[-1].lineno, tb[-1].name, ex)
     cls = type(arm.executed_opcode).__name__ if arm.executed_opcode is not None else ''
     return out, cls, SINK.lines - n0
 
@@ -271,7 +278,11 @@ def step_event(arm, eid, base, pre_state, act):
     """inject pre_state, perform act, return the event (pre as overrides of base, delta as post - pre)"""
     inject(arm, pre_state)
     pre = project(arm)
+    arm._last_tb = None
     out, cls, nunp = run_action(arm, act)
     post = project(arm)
-    return {'id': eid, 'pre': diff(base, pre), 'act': act, 'out': out, 'cls': cls, 'nunp': nunp,
-            'd': post_delta(pre, post)}, post
+    ev = {'id': eid, 'pre': diff(base, pre), 'act': act, 'out': out, 'cls': cls, 'nunp': nunp,
+          'd': post_delta(pre, post)}
+    if arm._last_tb:
+        ev['tb'] = arm._last_tb
+    return ev, post
